@@ -687,7 +687,12 @@ func (r *replicateChannelManager) GetChannelChan() <-chan string {
 		if c != nil {
 			return c
 		}
-		time.Sleep(time.Second)
+		// stop to wait when the replication is closed, the nil channel blocks the receiver, which should listen to the context
+		select {
+		case <-r.getCtx().Done():
+			return nil
+		case <-time.After(time.Second):
+		}
 	}
 }
 
